@@ -21,6 +21,7 @@ static struct RLV mkview(void) {
 }
 void h_Node_notify_int(void) { struct Node *n = mknode(); struct RLV lv = mkview(); int a; Node__notify_T_int(n, lv, &a); CANARY; }
 void h_Node_notify_int_ref(void) { struct Node *n = mknode(); struct RLV lv = mkview(); int a; Node__notify_T_int_ref(n, lv, &a); CANARY; }
+void h_Node_notify_payload(void) { struct Node *n = mknode(); struct RLV lv = mkview(); struct Payload a; Node__notify_T_Payload(n, lv, &a); CANARY; }
 void h_Node_notify_void(void) { struct Node *n = mknode(); struct RLV lv = mkview(); Node__notify_T_(n, lv); CANARY; }
 static struct SV mkname(void) { struct Str *s = malloc(sizeof(*s)); __CPROVER_assume(s != 0); struct SV v; v.id = s->id; v.src = s; return v; }
 void h_RLV_matches(void) { struct RLV lv = mkview(); _Bool r = RLV__matches(&lv, mkname()); CANARY; }
